@@ -978,6 +978,13 @@ class Gen(object):
             op["clean"] = True      # the way a document with resolved links is saved: clean first
         return op
 
+    def g_add_raising_rule(self):
+        if getattr(self, "_raising_rules", 0) >= 2:
+            return None
+        self._raising_rules = getattr(self, "_raising_rules", 0) + 1
+        return {"op": "add_raising_rule", "klass": self.pick(["property", "section"]),
+                "names": [self.pick(self.p.names), self.pick(self.p.names)]}
+
     def g_reseed(self):
         return {"op": "reseed", "k": self.pick([0, 1, 42])}
 
